@@ -728,9 +728,9 @@ class ProgGen:
                 op = "eq" if (how == "full" or rng.random() < 0.75) else rng.choice(["lt", "le", "gt", "ge"])
                 le_, re_ = rng.choice(ls), rng.choice(rs)
                 pair = (self._cid(le_), self._cid(re_))
-                if pair in used_pairs or (pair[1], pair[0]) in used_pairs:
-                    continue
-                used_pairs.add(pair)
+                if pair[0] in used_pairs or pair[1] in used_pairs:
+                    continue  # D20: Polars cannot use one key column in two join predicates
+                used_pairs.update(pair)
                 if op == "eq" and f == "int" and rng.random() < 0.2:
                     re_ = fn("add", re_, lit(rng.choice([0, 1])))
                 preds.append(fn(op, le_, re_) if rng.random() < 0.8 else fn({"lt": "gt", "gt": "lt", "le": "ge", "ge": "le", "eq": "eq"}[op], re_, le_))
